@@ -1,3 +1,141 @@
 import Ptk.Proto
--- stub: the C18 model driver has not been written yet
-def main : IO Unit := Ptk.Proto.run fun _ => "bad-op"
+import Ptk.Gen.C18
+import Ptk.Model.C18
+import Ptk.Model.C18Html
+open Ptk Ptk.Py Ptk.Proto Ptk.C18
+
+def tb : Tables := { fg := Gen.C18.fgColors, bg := Gen.C18.bgColors, c256 := Gen.C18.colors256 }
+
+/-- token parsers -/
+abbrev P (α : Type) := List String → Option (α × List String)
+
+def pStr : P Text
+  | t :: r => (decStr t).map (·, r)
+  | [] => none
+
+def pNat : P Nat
+  | t :: r => (decNat t).map (·, r)
+  | [] => none
+
+def pFrag : P Frag := fun ts => do
+  let (st, ts) ← pStr ts
+  let (tx, ts) ← pStr ts
+  match ts with
+  | "N" :: r => pure ({ style := st, text := tx, handler := none }, r)
+  | h :: r => do pure ({ style := st, text := tx, handler := some (← decNat h) }, r)
+  | [] => none
+
+def pTimes (p : P α) : Nat → P (List α)
+  | 0, ts => some ([], ts)
+  | n + 1, ts => do
+    let (a, ts) ← p ts
+    let (as, ts) ← pTimes p n ts
+    pure (a :: as, ts)
+
+def pList (p : P α) : P (List α) := fun ts => do
+  let (n, ts) ← pNat ts
+  pTimes p n ts
+
+def wrapCalls : Nat → AnyFT → AnyFT
+  | 0, v => v
+  | n + 1, v => .call (wrapCalls n v)
+
+/-- `<depth> <kind> <payload>` -/
+def pAny : P AnyFT := fun ts => do
+  let (d, ts) ← pNat ts
+  match ts with
+  | "none" :: r => pure (wrapCalls d .none, r)
+  | "str" :: r => do
+    let (s, r) ← pStr r
+    pure (wrapCalls d (.str s), r)
+  | "list" :: r => do
+    let (fs, r) ← pList pFrag r
+    pure (wrapCalls d (.list fs), r)
+  | "ft" :: r => do
+    let (fs, r) ← pList pFrag r
+    pure (wrapCalls d (.magic fs), r)
+  | "ansi" :: r => do
+    let (s, r) ← pStr r
+    pure (wrapCalls d (.magic (ansi tb s)), r)
+  | _ => none
+
+def encFrag (f : Frag) : String :=
+  s!"{encStr f.style} {encStr f.text} " ++ (match f.handler with | none => "N" | some h => toString h)
+
+def encFrags (fs : Frags) : String := encList encFrag fs
+
+def encErr : Err → String
+  | .index => "err:IndexError"
+  | .value => "err:ValueError"
+  | .type => "err:TypeError"
+
+def encRes (f : α → String) : Option (Except Err α) → String
+  | none => "unsupported"
+  | some (.error e) => encErr e
+  | some (.ok a) => f a
+
+def encHRes : Except HErr Frags → String
+  | .ok fs => encFrags fs
+  | .error .expat => "err:ExpatError"
+  | .error .value => "err:ValueError"
+  | .error .unsupported => "unsupported"
+
+def handle (toks : List String) : String :=
+  let r : Option String :=
+    match toks with
+    | ["ansi", s] => do pure (encFrags (ansi tb (← decStr s)))
+    | ["aesc", s] => do pure (encStr (ansiEscape (← decStr s)))
+    | ["hesc", s] => do pure (encStr (htmlEscape (← decStr s)))
+    | "afmt" :: t :: rest => do
+      let tm ← decStr t
+      let (vs, r) ← pList pStr rest
+      if r ≠ [] then none else pure (encRes encFrags (ansiFormat tb tm vs))
+    | "amod" :: t :: rest => do
+      let tm ← decStr t
+      let (vs, r) ← pList pStr rest
+      if r ≠ [] then none else pure (encRes encFrags (ansiMod tb tm vs))
+    | ["html", s] => do pure (encHRes (html (← decStr s)))
+    | "hfmt" :: t :: rest => do
+      let tm ← decStr t
+      let (vs, r) ← pList pStr rest
+      if r ≠ [] then none else pure (encRes encHRes (htmlFormat tm vs))
+    | "hmod" :: t :: rest => do
+      let tm ← decStr t
+      let (vs, r) ← pList pStr rest
+      if r ≠ [] then none else pure (encRes encHRes (htmlMod tm vs))
+    | "split" :: rest => do
+      let (fs, r) ← pList pFrag rest
+      if r ≠ [] then none else pure (encList encFrags (splitLines fs))
+    | "explode" :: rest => do
+      let (fs, r) ← pList pFrag rest
+      if r ≠ [] then none else pure (encFrags (explode fs))
+    | "text" :: rest => do
+      let (fs, r) ← pList pFrag rest
+      if r ≠ [] then none else pure (encStr (fragText fs))
+    | "len" :: rest => do
+      let (fs, r) ← pList pFrag rest
+      if r ≠ [] then none else pure (toString (fragLen fs))
+    | "width" :: rest => do
+      let (fs, r) ← pList pFrag rest
+      if r ≠ [] then none else pure (toString (fragWidth Gen.C18.cw fs))
+    | "tft" :: st :: rest => do
+      let style ← decStr st
+      let (v, r) ← pAny rest
+      if r ≠ [] then none else pure (encFrags (toFormattedText v style))
+    | "plain" :: rest => do
+      let (v, r) ← pAny rest
+      if r ≠ [] then none else pure (encStr (toPlainText v))
+    | "templ" :: t :: rest => do
+      let tm ← decStr t
+      let (vs, r) ← pList pAny rest
+      if r ≠ [] then none else
+        pure (match templateFormat tm vs with
+          | none => "err:AssertionError"
+          | some fs => encFrags fs)
+    | "merge" :: rest => do
+      let (vs, r) ← pList pAny rest
+      if r ≠ [] then none else pure (encFrags (mergeFormattedText vs))
+    | _ => none
+  r.getD "bad-op"
+
+def main : IO Unit := Ptk.Proto.run handle
